@@ -218,3 +218,14 @@ def gen_run_scenario(rng, tier, nfiles=1, seq=0.3, constraint=0.3, empty=0.15,
     if nfiles > 1:
         scn['max_parallel_tasks'] = rng.choice([0, 1, 2, 3, 8, 16])
     return scn
+
+
+def magic_prefixed(rng, content):
+    """ a PLAIN file whose first two bytes are the gzip magic number: `gzip.open(...).peek()`
+    refuses it ("Unknown compression method": third byte is not 8, and there are the >= 10
+    bytes the header reader wants), so it is text like any other """
+    head = b'\x1f\x8b' + bytes([rng.choice([0, 7, 9, 0x0a, 0x20, 0x41, 0x8b])])
+    data = head + content
+    if len(data) < 10:
+        data += b' padding..\n'
+    return data
